@@ -136,7 +136,8 @@ RatioVsPrimFloat(x, m, e) ==
 Ints == {R(n, 1) : n \in -MaxNum..MaxNum}
 Rats == {R(n, d) : n \in -MaxNum..MaxNum, d \in {1, 2, 3, 4, 8}}
 PrimFloats == {<<m, e>> : m \in -7..7, e \in -5..3}
-Floats == {<<B, s, ex>> : B \in {2, 3, 10}, s \in -9..9, ex \in -2..2}
+\* (a zero float always has exponent 0: Repr::new normalises)
+Floats == {f \in {<<B, s, ex>> : B \in {2, 3, 10}, s \in -9..9, ex \in -2..2} : f[2] = 0 => f[3] = 0}
 
 VARIABLES phase, v, abs, x, y, bx, by, res, exact
 vars == <<phase, v, abs, x, y, bx, by, res, exact>>
